@@ -154,7 +154,7 @@ func (p histProp) RunUnit(raw core.Unit, tier string, seed int64) core.UnitResul
 			res.Samples = append(res.Samples, map[string]any{"doc": h.Doc, "faulty": u.Faulty, "steps": stepStrings(h), "succeeded": st.OK, "rejected": st.Rejected, "faults_fired": st.FaultsFired})
 		}
 		if v != nil {
-			min := Shrink(p.store, h, v.Class, 120)
+			min := Shrink(p.store, h, v.Class, 200)
 			mv, _, _ := Run(p.store, min)
 			if mv == nil || mv.Class != v.Class {
 				min, mv = h, v
